@@ -209,7 +209,7 @@ Proof.
   { destruct o; try reflexivity; apply (check_attempt_model cfg wf); auto; [left|right]; reflexivity. }
   rewrite Hc. cbn [Z.eqb negb]. rewrite force_model.
   destruct (step_obs_shape cfg st o) as (s & l & ->).
-  apply (check_dump_model cfg _ _ (INV_step cfg wf st sn o I F) (EXI_step cfg wf st sn o I X)).
+  apply (check_dump_model cfg _ _ (INV_step cfg wf st sn o I F X) (EXI_step cfg wf st sn o I X)).
 Qed.
 
 (* ---------- all histories ---------- *)
@@ -225,7 +225,7 @@ Proof.
   pose proof (force_model cfg st o) as Hfm. rewrite Es in Hfm. cbn [fst snd] in Hfm. rewrite Hfm.
   pose proof (step_dump cfg st o) as Hd. rewrite Es in Hd. cbn [fst snd] in Hd. rewrite Hd.
   apply IH.
-  - pose proof (INV_step cfg wf st sn o I F) as I'. rewrite Es in I'. exact I'.
+  - pose proof (INV_step cfg wf st sn o I F X) as I'. rewrite Es in I'. exact I'.
   - pose proof (FL_step cfg wf st sn o I F) as F'. rewrite Es in F'. exact F'.
   - pose proof (EXI_step cfg wf st sn o I X) as X'. rewrite Es in X'. exact X'.
 Qed.
